@@ -94,6 +94,9 @@ inline void hash_combine_impl(hash_t &seed, const double &s)
     u.h = 0u;
     // -0.0 == 0.0, so both must hash alike
     u.d = (s == 0.0) ? 0.0 : s;
+    // all NaN doubles are equal, whatever their payload
+    if (s != s)
+        u.h = hash_t(0x7ff8000000000000ULL);
     hash_combine(seed, u.h);
 }
 
